@@ -150,6 +150,8 @@ def omega_records(tier):
         out.append([f"$OMEGA {a}", f"$OMEGA BLOCK({_bsize(a)}) SAME(2)"])
         out.append([f"$OMEGA {a}", f"$OMEGA BLOCK({_bsize(a)}) SAME", f"$OMEGA BLOCK({_bsize(a)}) SAME"])
         out.append(["$OMEGA 0.5", f"$OMEGA {a}", "$OMEGA 0.7"])
+    for a, b in itertools.product(["0.1 0.2", "0.1 0.2 0.3", "0.3"], ["0.4 0.5", "0.4 0.5 0.6"]):
+        out.append([f"$OMEGA {a}", f"$OMEGA {b}"])
     for a, b in itertools.product(diag, blocks):
         out.append([f"$OMEGA {a}", f"$OMEGA {b}"])
         if tier == "thorough":
